@@ -1,5 +1,6 @@
 import Log4rsModel.Base.Str
 import Log4rsModel.Base.Outcome
+import Log4rsModel.Base.Bytes
 /-
 Model of `src/append/mod.rs::env_util::expand_env_vars` (C19), function by function, as the code is
 (single-pass expansion, /repo 3840597):
@@ -32,8 +33,14 @@ panic "byte index is not a char boundary / out of range"). The model returns an 
 The environment is an association list `name ↦ value` (first entry wins; the harness installs
 exactly these variables and removes every other one).
 
-The call sites (builders, configuration deserializers, `rotate()`) are modelled at the end:
-which text each of them hands to `expand_env_vars`, and how often.
+The process environment as the operating system holds it (`OsEnv`: byte strings, not necessarily
+UTF-8) and `std::env::var` on it are modelled by `unicodeView`: a variable whose name or value is
+not valid Unicode is invisible to `std::env::var(name)` (`Err(NotUnicode)` / never asked for), so
+the code treats a reference to it as a reference to an unset variable.
+
+The call sites (builders, configuration deserializers, `rotate()`, and the rolling appender over
+its whole life) are modelled at the end: which text each of them hands to `expand_env_vars`, how
+often, and which stored location every later open / roll / reopen uses.
 -/
 namespace Log4rs.EnvExpand
 open Log4rs Log4rs.Str
@@ -143,6 +150,20 @@ def lookup (env : Env) (name : Text) : Option Text :=
   | [] => none
   | (k, v) :: rest => if k = name then some v else lookup rest name
 
+/-! ### The operating system's environment -/
+
+/-- the environment block of the process: names and values are byte strings (names unique) -/
+abbrev OsEnv := List (Bytes × Bytes)
+
+/-- what `std::env::var` can see: `var(name)` returns `Ok(value)` iff a variable with the bytes of
+`name` exists and its value is valid Unicode (`Err(NotUnicode)` otherwise, `Err(NotPresent)` if
+absent); a variable whose name is not valid Unicode can never be asked for. -/
+def unicodeView (os : OsEnv) : Env :=
+  os.filterMap (fun e =>
+    match decodeUtf8 e.1, decodeUtf8 e.2 with
+    | some n, some v => some (n, v)
+    | _, _ => none)
+
 /-- body of the `for` loop for one match, historical code (before the F7 fix) -/
 def stepUnfixed (alnum : Char → Bool) (env : Env) (path out : Text) (matchStart : Nat) : Outcome Unit Text :=
   let nameStart := matchStart + ENV_PREFIX_LEN
@@ -250,6 +271,10 @@ def slotText (stored : Text) (i : Nat) : Text := replaceAll ['{', '}'] (decimal 
 def rollerSlot (alnum : Char → Bool) (env : Env) (stored : Text) (i : Nat) : Outcome Unit Text :=
   expand alnum env (slotText stored i)
 
+/-- `expand_env_vars` in a process whose environment block is `os` -/
+def expandOs (alnum : Char → Bool) (os : OsEnv) (path : Text) : Outcome Unit Text :=
+  expand alnum (unicodeView os) path
+
 inductive CallSite where
   | fileBuilder | fileConfig | rollingBuilder | rollingConfig
   | rollerBuilder (slot : Nat) | rollerConfig (slot : Nat)
@@ -269,5 +294,54 @@ def location (alnum : Char → Bool) (env : Env) : CallSite → Text → Outcome
   | .rollingConfig, t => rollingDeserialize alnum env t
   | .rollerBuilder i, t => rollerSlot alnum env (rollerBuild t) i
   | .rollerConfig i, t => rollerSlot alnum env (rollerDeserialize t) i
+
+/-! ### The rolling appender over its life
+
+`build` stores `path: expand_env_vars(given).into()` in the appender; `get_writer` opens
+`&self.path` (first open in `build`, every reopen after a roll), and `append` hands
+`LogFile { path: &self.path, .. }` to the policy, whose roller gets `log.path()`. -/
+
+structure RollingAppender where
+  /-- the field `path` of the struct: computed once, in `build` -/
+  path : Text
+  deriving Repr, DecidableEq
+
+def rollingBuildState (alnum : Char → Bool) (env : Env) (given : Text) : Outcome Unit RollingAppender :=
+  match rollingBuild alnum env given with
+  | .ok p => .ok { path := p }
+  | .err e => .err e
+  | .panic w => .panic w
+
+/-- file-system uses of the appender's location -/
+inductive FsUse where
+  /-- `fs::create_dir_all(parent)` in `build` -/
+  | mkParent (of : Text)
+  /-- `OpenOptions::open(&self.path)` in `get_writer` -/
+  | openAt (p : Text)
+  /-- `roller.roll(log.path())`: the file the roller archives / deletes -/
+  | rollSource (p : Text)
+  deriving Repr, DecidableEq
+
+def FsUse.path : FsUse → Text
+  | .mkParent p => p
+  | .openAt p => p
+  | .rollSource p => p
+
+/-- appends after `build`; `rolls k = true` when the policy rolls at the k-th append.
+`writerOpen` = the `Option<LogWriter>` is `Some`. -/
+def appendTrace (a : RollingAppender) : Bool → List Bool → List FsUse
+  | _, [] => []
+  | writerOpen, roll :: rest =>
+    (if writerOpen then [] else [FsUse.openAt a.path]) ++
+    (if roll then [FsUse.rollSource a.path] else []) ++
+    appendTrace a (!roll) rest
+
+/-- every use of a location by a rolling appender built from `given`, over a history of appends -/
+def rollingTrace (alnum : Char → Bool) (env : Env) (given : Text) (rolls : List Bool) :
+    Outcome Unit (List FsUse) :=
+  match rollingBuildState alnum env given with
+  | .ok a => .ok (FsUse.mkParent a.path :: FsUse.openAt a.path :: appendTrace a true rolls)
+  | .err e => .err e
+  | .panic w => .panic w
 
 end Log4rs.EnvExpand
